@@ -115,7 +115,8 @@ Record KInv (c : cfg) : Prop := {
   k_evs  : all_rets ev_all (c_trace c) = true;
   k_gap  : has_panic (c_trace c) = false -> gap_ok (c_sh c) (hist c);
   k_led  : if e_owning e then tiling true (frontier (c_sh c)) (led c) else dropped_all (c_trace c) = [];
-  k_slots : forall t bf, t_buf (c_pool c t) = Some bf -> bf_slots bf = []
+  k_slots : forall t bf, t_buf (c_pool c t) = Some bf -> bf_slots bf = [];
+  k_nofin : has_final (c_trace c) = false
 }.
 
 (** events of thread [t] *)
@@ -287,6 +288,8 @@ Proof.
   - intros u bf. destruct (Nat.eq_dec u t) as [->|Hn].
     + rewrite upd_same. apply Hslots.
     + rewrite upd_other by assumption. apply (k_slots c I).
+  - pose proof (k_nofin c I) as Hn. clear - Fev Hn. induction evs as [|ev evs IH]; [exact Hn|].
+    inversion Fev as [|? ? H1 H2]; subst. cbn [app]. destruct ev; cbn [ev_of] in H1; try contradiction; cbn [has_final]; auto.
 Qed.
 
 (** the skip bookkeeping is kept by a step of a thread that neither starts nor finishes a skip *)
@@ -1610,6 +1613,74 @@ Proof.
   - apply Hcm.
 Qed.
 
+(** ** the events one step appends to the trace *)
+
+Lemma step_trace_shape c t :
+  KInv c ->
+  exists evs, c_trace (step e c t) = evs ++ c_trace c /\
+    (evs = [] \/ (exists ev, evs = [ev]) \/ (exists r d o, evs = [ERet t r d; ECall t o])).
+Proof.
+  intros I.
+  destruct (t_pc (c_pool c t)) as [|q|q b|q b|q b got|q b got|q b got|q b got| |hm|hm] eqn:Hpc;
+    try (destruct (k_wf c I t) as (Hok & _ & _); unfold kpc_ok in Hok; rewrite Hpc in Hok; contradiction).
+  - destruct (t_todo (c_pool c t)) as [|o rest] eqn:Htodo.
+    + rewrite step_idle_nil by assumption. exists []. auto.
+    + rewrite (step_idle_call c t o rest) by assumption. unfold call.
+      destruct (call_res e (c_pool c t) o) as [p|b r d]; cbn [commit c_trace].
+      * exists [ECall t o]. split; [reflexivity|]. right; left. eauto.
+      * exists [ERet t r d; ECall t o]. split; [reflexivity|]. right; right. eauto.
+  - rewrite (step_res c t q Hpc). unfold finish.
+    destruct (deliver e (c_pool c t) q (k_pull e q (s_c (c_sh c)))) as [ts' [[r d]|]]; cbn [commit c_trace ret_ev].
+    + exists [ERet t r d]. split; [reflexivity|]. right; left. eauto.
+    + exists []. auto.
+  - unfold step. rewrite Hpc.
+    destruct kind_cases as [K|[K|[K|K]]]; rewrite K; try (cbn [commit c_trace]; eexists [_]; split; [reflexivity|]; right; left; eauto);
+      destruct (k_fetch_n e (e_len e) (s_c (c_sh c))) as [[|]|]; cbn [commit c_trace]; eexists [_]; (split; [reflexivity|]); right; left; eauto.
+  - unfold step. rewrite Hpc.
+    destruct kind_cases as [K|[K|[K|K]]]; rewrite K; cbn [commit c_trace]; eexists [_]; (split; [reflexivity|]); right; left; eauto.
+Qed.
+
+Lemma n_pending_nonneg c : KInv c -> (0 <= n_pending (c_trace c))%Z.
+Proof.
+  intros I. rewrite (k_pend c I). apply sumZ_nonneg. intros t _. unfold pendZ. destruct (is_idle (c_pool c t)); lia.
+Qed.
+
+(** at a quiescent point nothing is held by a running loop *)
+Lemma quiescent_accs c : KInv c -> n_pending (c_trace c) = 0%Z -> accs (c_pool c) = [].
+Proof.
+  intros I Hq. rewrite (k_pend c I) in Hq.
+  unfold accs. apply gather_nil. intros t Ht. unfold acc_iv.
+  assert (pendZ (c_pool c t) = 0%Z) as Hz.
+  { apply (sumZ_zero (fun u => pendZ (c_pool c u)) L); [|exact Hq|exact Ht].
+    intros u _. unfold pendZ. destruct (is_idle (c_pool c u)); lia. }
+  unfold pendZ in Hz. destruct (is_idle (c_pool c t)) eqn:Ei; [|discriminate].
+  rewrite (acc_idle c t I Ei). reflexivity.
+Qed.
+
+Lemma quiescent_gap c : KInv c -> n_pending (c_trace c) = 0%Z -> has_panic (c_trace c) = false ->
+  iv_total (cov e (c_trace c)) = iv_maxhi (cov e (c_trace c)).
+Proof.
+  intros I Hq Hnp. destruct (k_gap c I Hnp) as [H _]. unfold hist in H.
+  rewrite (quiescent_accs c I Hq), app_nil_r in H. exact H.
+Qed.
+
+Lemma prefix_step c t :
+  KInv c -> KInv (step e c t) -> has_panic (c_trace (step e c t)) = false ->
+  chk_C04_prefix e (c_trace c) = true -> chk_C04_prefix e (c_trace (step e c t)) = true.
+Proof.
+  intros I I' Hnp Hc. destruct (step_trace_shape c t I) as (evs & Et & Hshape).
+  assert (Hq : forall tr', tr' = c_trace (step e c t) ->
+     (if (n_pending tr' =? 0)%Z then iv_total (cov e tr') =? iv_maxhi (cov e tr') else true) = true).
+  { intros tr' ->. destruct (Z.eqb_spec (n_pending (c_trace (step e c t))) 0) as [Hz|Hz]; [|reflexivity].
+    apply N.eqb_eq. apply quiescent_gap; assumption. }
+  destruct Hshape as [->|[(ev & ->)|(r & d & o & ->)]].
+  - cbn [app] in Et. rewrite Et. exact Hc.
+  - cbn [app] in Et. specialize (Hq _ eq_refl). rewrite Et in *. cbn [chk_C04_prefix]. rewrite Hq, Hc. reflexivity.
+  - cbn [app] in Et. specialize (Hq _ eq_refl). rewrite Et in *. cbn [chk_C04_prefix]. rewrite Hq, Hc.
+    rewrite n_pending_call. pose proof (n_pending_nonneg c I).
+    destruct (Z.eqb_spec (n_pending (c_trace c) + 1) 0); [lia|]. reflexivity.
+Qed.
+
 (** ** the initial state, and every state a schedule leads to *)
 
 Lemma kinv_init progs :
@@ -1635,6 +1706,7 @@ Proof.
     rewrite gather_nil by reflexivity. replace (N.min 0 (e_len e)) with 0 by lia.
     destruct (e_owning e); [apply tiling_empty|reflexivity].
   - discriminate.
+  - reflexivity.
 Qed.
 
 Lemma exec_snoc c sched t : exec e c (sched ++ [t]) = step e (exec e c sched) t.
@@ -1657,6 +1729,169 @@ Proof.
     assert (Hsuf : nowrap (c_labels (exec e (init progs) sched))).
     { apply (step_labels_suffix (exec e (init progs) sched) t). exact Hw. }
     apply Hstep; [apply Hprev; exact Hsuf|exact Hw].
+Qed.
+
+Theorem prefix_exec progs sched :
+  (forall t, Forall wf_op (progs t)) ->
+  Forall (fun t => In t L) sched ->
+  nowrap (c_labels (exec e (init progs) sched)) ->
+  has_panic (c_trace (exec e (init progs) sched)) = false ->
+  chk_C04_prefix e (c_trace (exec e (init progs) sched)) = true.
+Proof.
+  intros Hp. induction sched as [|t sched IH] using rev_ind; intros Hs Hw Hnp.
+  - reflexivity.
+  - pose proof (kinv_exec progs (sched ++ [t]) Hp Hs Hw) as I'.
+    rewrite exec_snoc in *. apply Forall_app in Hs. destruct Hs as [Hs Ht].
+    pose proof (step_labels_suffix _ _ Hw) as Hw0.
+    pose proof (kinv_exec progs sched Hp Hs Hw0) as I.
+    apply prefix_step; try assumption. apply IH; try assumption.
+    destruct (step_trace_shape _ t I) as (evs & Et & _). rewrite Et in Hnp. eapply has_panic_app_false. exact Hnp.
+Qed.
+
+(** ** the end of life of the iterator: into_seq_iter and drop, by the exclusive owner *)
+
+Lemma cov_final f r d tr : cov e (EFinal f r d :: tr) = cov e tr.
+Proof. reflexivity. Qed.
+
+Lemma pos_val m : pos_of e (val_of e m) = m.
+Proof using. clear Hk Hown. unfold pos_of, val_of. destruct (e_kind e); lia. Qed.
+
+(** the result of into_seq_iter at a quiescent point: the elements from the frontier on *)
+Lemma seq_ok c k rs took dd :
+  KInv c -> n_pending (c_trace c) = 0%Z ->
+  took = N.min k (e_len e - frontier (c_sh c)) ->
+  rs = nz_run None (val_of e (frontier (c_sh c))) took ->
+  chk_C10 e (EFinal (FIntoSeq k) (RSeq rs took) dd :: c_trace c) = true.
+Proof.
+  intros I Hq -> ->. cbn [chk_C10].
+  destruct (has_panic (c_trace c)) eqn:Hnp; [reflexivity|].
+  pose proof (k_gap c I Hnp) as [Hg1 Hg2]. unfold hist in Hg1, Hg2.
+  rewrite (quiescent_accs c I Hq), app_nil_r in Hg1, Hg2.
+  pose proof (cov_below c I) as Hcb.
+  set (m := frontier (c_sh c)) in *.
+  assert (Hm : m <= e_len e) by (unfold m, frontier; lia).
+  destruct (has_skip (c_trace c)) eqn:Hs.
+  - unfold nz_run. destruct (N.eqb_spec (N.min k (e_len e - m)) 0) as [Hz|Hz].
+    + reflexivity.
+    + unfold mk_run. cbn [r_cnt r_val]. rewrite N.eqb_refl, pos_val. cbn [andb].
+      assert (iv_total (cov e (c_trace c)) <=? m = true) as -> by (apply N.leb_le; lia). cbn [andb].
+      destruct (N.ltb_spec (N.min k (e_len e - m)) k).
+      * apply N.eqb_eq. lia.
+      * apply N.leb_le. lia.
+  - assert (Hcl : clean (c_trace c) = true) by (unfold clean; rewrite Hs, Hnp; reflexivity).
+    pose proof (tl_total _ _ _ (k_til c I) Hcl) as Ht. unfold hist in Ht.
+    rewrite (quiescent_accs c I Hq), app_nil_r in Ht. fold m in Ht. rewrite Ht.
+    rewrite N.eqb_refl. cbn [andb]. unfold nz_run. destruct (N.eqb_spec (N.min k (e_len e - m)) 0) as [Hz|Hz].
+    + reflexivity.
+    + unfold mk_run. cbn [r_cnt r_val]. rewrite !N.eqb_refl. reflexivity.
+Qed.
+
+Theorem final_C10 c t k :
+  KInv c -> n_pending (c_trace c) = 0%Z ->
+  chk_C10 e (c_trace (final_step e c t (FIntoSeq k))) = true.
+Proof.
+  intros I Hq. unfold final_step.
+  assert (Hfr : N.min (s_c (c_sh c)) (e_len e) = frontier (c_sh c)) by reflexivity.
+  destruct kind_cases as [K|[K|[K|K]]]; rewrite K.
+  - unfold seq_res. cbn [c_trace]. rewrite Hfr. apply seq_ok; try assumption; reflexivity.
+  - unfold seq_res. cbn [c_trace]. rewrite Hfr. apply seq_ok; try assumption; reflexivity.
+  - unfold seq_res. cbn [c_trace]. rewrite Hfr. apply seq_ok; try assumption; reflexivity.
+  - rewrite Hfr. pose proof He as [Hlen Hr]. rewrite K in Hr. destruct Hr as (Hs & He' & Hl).
+    assert (Hm : frontier (c_sh c) <= e_len e) by (unfold frontier; lia).
+    rewrite add_u_ok by lia. cbn [c_trace].
+    apply seq_ok; try assumption.
+    + destruct (N.ltb_spec (e_start e + frontier (c_sh c)) (e_end e)); lia.
+    + unfold val_of. rewrite K. reflexivity.
+Qed.
+
+(** the ledger of the consuming kinds *)
+Theorem run_C08 c : KInv c -> chk_C08 e (c_trace c) = true.
+Proof.
+  intros I. unfold chk_C08. pose proof (k_led c I) as Hl.
+  destruct (e_owning e).
+  - unfold led in Hl. pose proof (tl_disj _ _ _ Hl) as Hd. pose proof (tl_within _ _ _ Hl) as Hw.
+    rewrite pairwise_disj_app in Hd. apply andb_true_iff in Hd. destruct Hd as [Hd _]. apply andb_true_iff in Hd. destruct Hd as [Hd _].
+    rewrite iv_within_app in Hw. apply andb_true_iff in Hw. destruct Hw as [Hw _].
+    rewrite Hd. cbn [andb].
+    rewrite (iv_within_mono (frontier (c_sh c)) (e_len e)); [|unfold frontier; lia|exact Hw]. cbn [andb].
+    assert (has_final (c_trace c) = false) as ->; [|reflexivity].
+    (* no end-of-life event is ever emitted by a step *) apply (k_nofin c I).
+  - rewrite Hl. reflexivity.
+Qed.
+
+Lemma owning_kind : e_owning e = true -> e_kind e = KVec \/ e_kind e = KArray.
+Proof using Hown Hk. intros H. rewrite Hown in H. destruct (e_kind e); try discriminate; auto. Qed.
+
+Lemma drops_run_iv v cnt : e_owning e = true ->
+  drops_iv (drops_of_run e v cnt) = if 0 <? cnt then [(pos_of e v, cnt)] else [].
+Proof using. intros Ho. unfold drops_of_run. rewrite Ho. cbn [andb]. destruct (0 <? cnt); reflexivity. Qed.
+
+(** after the end of life every element was moved out or destroyed exactly once *)
+Lemma final_led c f r d took cnt :
+  KInv c -> n_pending (c_trace c) = 0%Z -> e_owning e = true ->
+  cnt = e_len e - frontier (c_sh c) -> took <= cnt ->
+  res_taken e r ++ drops_iv d = led_split (frontier (c_sh c)) took cnt ->
+  chk_C08 e (EFinal f r d :: c_trace c) = true.
+Proof.
+  intros I Hq Ho -> Htk Hrd. unfold chk_C08. rewrite Ho.
+  pose proof (k_led c I) as Hl. rewrite Ho in Hl. unfold led in Hl.
+  rewrite (quiescent_accs c I Hq), app_nil_r in Hl.
+  assert (Hm : frontier (c_sh c) <= e_len e) by (unfold frontier; lia).
+  pose proof (tiling_extend_led _ _ (e_len e - frontier (c_sh c)) took Htk Hl) as T.
+  replace (frontier (c_sh c) + (e_len e - frontier (c_sh c))) with (e_len e) in T by lia.
+  rewrite <- Hrd in T.
+  assert (P : Permutation (taken_all e (EFinal f r d :: c_trace c) ++ dropped_all (EFinal f r d :: c_trace c))
+                          ((res_taken e r ++ drops_iv d) ++ taken_all e (c_trace c) ++ dropped_all (c_trace c))).
+  { cbn [taken_all dropped_all]. apply led_base_perm. }
+  pose proof (tiling_perm _ _ _ _ (Permutation_sym P) T) as T'.
+  rewrite (tl_disj _ _ _ T'), (tl_within _ _ _ T'). cbn [andb has_final n_pending].
+  rewrite Hq. cbn [Z.eqb]. rewrite (tl_total _ _ _ T' eq_refl). apply N.eqb_refl.
+Qed.
+
+Theorem final_C08 c t f :
+  KInv c -> n_pending (c_trace c) = 0%Z ->
+  chk_C08 e (c_trace (final_step e c t f)) = true.
+Proof.
+  intros I Hq.
+  assert (Hcases : e_owning e = true \/ e_owning e = false) by (clear; destruct (e_owning e); auto).
+  destruct Hcases as [Ho|Ho].
+  - assert (Hfr : N.min (s_c (c_sh c)) (e_len e) = frontier (c_sh c)) by reflexivity.
+    assert (Hm : frontier (c_sh c) <= e_len e) by (unfold frontier; lia).
+    assert (Hgoal_drop : chk_C08 e (EFinal FDrop RUnit
+              (if s_c (c_sh c) <? e_len e then drops_of_run e (s_c (c_sh c)) (e_len e - s_c (c_sh c)) else []) :: c_trace c) = true).
+    { apply final_led with (took := 0) (cnt := e_len e - frontier (c_sh c)); try assumption; try reflexivity; try lia.
+      cbn [res_taken app]. unfold led_split. cbn [N.eqb app]. rewrite N.add_0_r, N.sub_0_r.
+      destruct (N.ltb_spec (s_c (c_sh c)) (e_len e)) as [Hlt|Hge].
+      - rewrite drops_run_iv by assumption. replace (frontier (c_sh c)) with (s_c (c_sh c)) by (unfold frontier; lia).
+        destruct (owning_kind Ho) as [K|K]; unfold pos_of; rewrite K; reflexivity.
+      - replace (e_len e - frontier (c_sh c)) with 0 by (unfold frontier; lia). reflexivity. }
+    assert (Hgoal_seq : forall k, chk_C08 e (EFinal (FIntoSeq k)
+              (fst (seq_res e (frontier (c_sh c)) (e_len e - frontier (c_sh c)) k))
+              (snd (seq_res e (frontier (c_sh c)) (e_len e - frontier (c_sh c)) k)) :: c_trace c) = true).
+    { intros k. unfold seq_res. cbn [fst snd].
+      apply final_led with (took := N.min k (e_len e - frontier (c_sh c))) (cnt := e_len e - frontier (c_sh c));
+        try assumption; try reflexivity; try lia.
+      cbn [res_taken]. unfold led_split, nz_run. rewrite drops_run_iv by assumption. rewrite pos_val.
+      destruct (N.min k (e_len e - frontier (c_sh c)) =? 0); [reflexivity|].
+      cbn [map]. unfold run_iv, mk_run. cbn [r_val r_cnt]. rewrite pos_val. reflexivity. }
+    unfold final_step. destruct (owning_kind Ho) as [K|K]; rewrite K; destruct f as [|k].
+    + cbn [c_trace]. exact Hgoal_drop.
+    + rewrite Hfr. specialize (Hgoal_seq k). destruct (seq_res e (frontier (c_sh c)) (e_len e - frontier (c_sh c)) k) as [r d].
+      cbn [c_trace]. exact Hgoal_seq.
+    + cbn [c_trace]. exact Hgoal_drop.
+    + rewrite Hfr. specialize (Hgoal_seq k). destruct (seq_res e (frontier (c_sh c)) (e_len e - frontier (c_sh c)) k) as [r d].
+      cbn [c_trace]. exact Hgoal_seq.
+  - (* not owning: nothing is ever destroyed by the machinery *)
+    pose proof (k_led c I) as Hl. rewrite Ho in Hl.
+    assert (Hkk : e_kind e = KSlice \/ e_kind e = KRange).
+    { destruct kind_cases as [K|[K|[K|K]]]; auto; rewrite Hown, K in Ho; discriminate. }
+    unfold chk_C08. rewrite Ho. unfold final_step.
+    destruct Hkk as [K|K]; rewrite K; destruct f as [|k]; cbn [c_trace dropped_all].
+    + rewrite Hl. reflexivity.
+    + destruct (seq_res e (N.min (s_c (c_sh c)) (e_len e)) (e_len e - N.min (s_c (c_sh c)) (e_len e)) k) as [r d].
+      cbn [c_trace dropped_all drops_iv map app]. rewrite Hl. reflexivity.
+    + rewrite Hl. reflexivity.
+    + destruct (add_u (e_mode e) (e_start e) (N.min (s_c (c_sh c)) (e_len e))); cbn [c_trace dropped_all drops_iv map app]; rewrite Hl; reflexivity.
 Qed.
 
 End Known.
